@@ -37,7 +37,7 @@ let () =
          | "META" ->
            let nd = ni () in
            let vg = List.init nd (fun _ ->
-               let kind = (match ni () with 0 -> KScalar | 1 -> KVec3 | 2 -> KUnit3 | _ -> KQuat) in
+               let kind = (match ni () with 0 -> KScalar | 1 -> KVec3 | 2 -> KUnit3 | 3 -> KQuat | k -> KVecN (nat_of_int (k - 100))) in
                let per = nb () in let period = nf () in let sigma = nf () in let width = nf () in
                let gper = nb () in let expand = nb () in let hlo = nb () in let hup = nb () in
                let lower = nf () in let upper = nf () in let nx = ni () in
@@ -46,7 +46,7 @@ let () =
                 { b_lower = lower; b_upper = upper; b_nx = z_of_int nx })) in
            let sigmas = List.map (fun ((_, sg), _) -> sg) vg in
            let vg = List.map (fun ((v, _), b) -> (v, b)) vg in
-           let ncomp = List.map (fun (v, _) -> match v.v_kind with KScalar -> 1 | KQuat -> 4 | _ -> 3) vg in
+           let ncomp = List.map (fun (v, _) -> match v.v_kind with KScalar -> 1 | KQuat -> 4 | KVecN n -> (let rec cnt = function O -> 0 | S m -> 1 + cnt m in cnt n) | _ -> 3) vg in
            let weight = nf () in let hw = nf () in let freq = ni () in let gfreq = ni () in
            let ug = nb () in let keep = nb () in let wt = nb () in let bt = nf () in let kb = nf () in
            let sz = nb () in let dump = nb () in
@@ -68,8 +68,21 @@ let () =
            let c = ref c in
            let st = ref (init_state fops !c) in
            let outs = ref [] in
+           (* multiple replicas: one mirror object for the hills received from the other walkers ("F n hill*n" before the
+              step at which they are read: update_grid_data projects the mirror, then replica_share adds the hills) *)
+           let mirror = ref (init_state fops !c) in
+           let pending = ref [] in
+           let repl = ref false in
            for _ = 1 to nev do
              match next () with
+             | "F" ->
+               let k = ni () in
+               repl := true;
+               pending := !pending @ List.init k (fun _ ->
+                   let it = ni () in let w = nf () in
+                   let cx = List.map (fun n -> List.init n (fun _ -> nf ())) ncomp in
+                   let sg = List.init nd (fun _ -> nf ()) in
+                   { h_it = z_of_int it; h_W = w; h_c = cx; h_s = sg })
              | "W" -> st := save_state fops !c !st
              | "P" ->
                (* write_pmf at temperature T: one value per bin, in the order of the array *)
@@ -86,9 +99,9 @@ let () =
                (* a restart after which the job goes on with other widths, hillWidth, weight, frequency *)
                let sg = List.init nd (fun _ -> nf ()) in
                let hw' = nf () in let w' = nf () in let fr' = ni () in
-               let gf' = ni () in let wt' = nb () in let bt' = nf () in
+               let gf' = ni () in let wt' = nb () in let bt' = nf () in let keep' = nb () in
                let e = EReconf { p_sigmas = sg; p_hill_width = hw'; p_weight = w'; p_freq = z_of_int fr';
-                                 p_gfreq = z_of_int gf'; p_wt = wt'; p_bias_temp = bt' } in
+                                 p_gfreq = z_of_int gf'; p_wt = wt'; p_bias_temp = bt'; p_keep = keep' } in
                st := apply_event fops !c !st e;
                c := next_cfg !c e
              | "B" ->
@@ -102,6 +115,14 @@ let () =
                let i = { i_it = z_of_int it; i_rel = z_of_int rel; i_cont = cont; i_x = x } in
                let (s', (e, f)) = step fops !c !st i in
                st := s';
+               let (e, f) =
+                 if not !repl then (e, f) else begin
+                   if ug && (it mod (int_of_z (!c).c_gfreq) = 0) then mirror := mirror_apply fops !c !mirror MProj;
+                   List.iter (fun h -> mirror := mirror_apply fops !c !mirror (MAdd h)) !pending;
+                   pending := [];
+                   (total_energy fops !c s' [!mirror] x,
+                    List.mapi (fun k n -> List.init n (fun j -> total_force fops !c s' [!mirror] x (nat_of_int k) (nat_of_int j))) ncomp)
+                 end in
                let b = Buffer.create 256 in
                Buffer.add_string b (Printf.sprintf "S %s %s" (hex e) (String.concat " " (List.map hex (List.concat f))));
                Buffer.add_string b (Printf.sprintf " ; H %d %d %s" (List.length s'.st_old) (List.length s'.st_new)
